@@ -76,13 +76,16 @@ def check(run, replay):
         "(platform, language, operator, type pair). literals: grammar-generated (base x suffix x value around the int/long/long long boundaries of the platform).")
 
     vlib.ensure_repo_build()
-    try:
-        ranks = TR.translate(vlib.REPO, os.path.join(vlib.COQ, "theories", "TypeConv", "Gen_TypeRank.v"))
-        plats = TP.translate(vlib.REPO, os.path.join(vlib.COQ, "theories", "Lit", "Gen_Platforms.v"))
-        run.extra["platforms_translated"] = len(plats)
-    except Exception as e:
-        run.violation("translate", "translator failed: %s" % e, {"broken": "translator", "detail": str(e)}, found_input=False)
-        ranks, plats = {}, []
+    plats = []
+    for what, fn in (("typerank", lambda: TR.translate(vlib.REPO, os.path.join(vlib.COQ, "theories", "TypeConv", "Gen_TypeRank.v"))),
+                     ("platforms", lambda: TP.translate(vlib.REPO, os.path.join(vlib.COQ, "theories", "Lit", "Gen_Platforms.v")))):
+        try:
+            r = fn()
+            if what == "platforms":
+                plats = r
+                run.extra["platforms_translated"] = len(plats)
+        except Exception as e:      # loud, but the streams below still look for a concrete failing input
+            run.violation("translate:" + what, "translator %s failed: %s" % (what, e), {"broken": "translator", "detail": str(e)}, found_input=False)
     ok = run.prove(extra_targets=["theories/TypeConv/Run.vo"])
     model = vlib.build_model(PID) if ok or os.path.exists(os.path.join(vlib.COQ, "theories/TypeConv/Run.vo")) else None
     if not ok:
@@ -113,6 +116,7 @@ def check(run, replay):
             literals(run, model, wd, byname[pname], rng, quick)
     finally:
         shutil.rmtree(wd, ignore_errors=True)
+        run.extra["model_vs_dump_disagreements"] = run.extra.pop("_model_diffs", 0)
 
 
 def typed_expressions(run, model, wd, pname, cpp, ops):
@@ -173,10 +177,25 @@ def typed_expressions(run, model, wd, pname, cpp, ops):
         mod = (m[0].decode(), m[1].decode()) if len(m) == 2 else ("?", "?")
         run.count(stream, None, nontrivial=(pname, k, op, a, b), bucket="%s,op%d,%s" % (pname, k, "ok" if mod == impl else "diff"))
         if mod != impl:
-            run.violation("model:%s:%s:%s:%d:%d" % (pname, ext, op, a, b),
-                          "`%s` with a: %s, b: %s on %s (.%s): cppcheck types the operator %s %s, the model of setValueType says %s %s"
-                          % (text, CT[a], CT[b], pname, ext, impl[1], impl[0], mod[1], mod[0]),
-                          dict(where, broken="correspondence setValueType", impl=impl, model=mod), found_input=False)
+            # search: the specification itself on this input
+            s = vlib.dec_line(so[i])
+            want = int(s[0]) if s and s[0].isdigit() else None
+            have = ctype_of_dump(impl[0], impl[1] or None)
+            nrep = run.extra.setdefault("_model_diffs", 0)
+            run.extra["_model_diffs"] = nrep + 1
+            if nrep >= 6:
+                continue
+            if want is not None and have != want:
+                run.violation("spec:%s:%s:%s:%d:%d" % (pname, ext, op, a, b),
+                              "`%s` with a: %s, b: %s on %s (.%s): cppcheck types the operator %s %s, the language says %s (the model of setValueType says %s %s)"
+                              % (text, CT[a], CT[b], pname, ext, impl[1], impl[0], CT[want], mod[1], mod[0]),
+                              dict(where, cppcheck_type="%s %s" % (impl[1], impl[0]), language_type=CT[want], model=mod,
+                                   oracle="clang -target %s" % TRIPLES.get(pname, "(none)")))
+            else:
+                run.violation("model:%s:%s:%s:%d:%d" % (pname, ext, op, a, b),
+                              "`%s` with a: %s, b: %s on %s (.%s): cppcheck types the operator %s %s, the model of setValueType says %s %s"
+                              % (text, CT[a], CT[b], pname, ext, impl[1], impl[0], mod[1], mod[0]),
+                              dict(where, broken="correspondence setValueType", impl=impl, model=mod), found_input=False)
             continue
         # the specification on the implementation's answer
         s = vlib.dec_line(so[i])
